@@ -24,7 +24,7 @@
   The YAML leg goes through the same parse function; its marshalling differs only in omitempty rules
   (documented in DESIGN.md) and is covered by the correspondence and the re-parse oracle.
 -/
-import GoPipeline.Lemmas.Roundtrip
+import GoPipeline.Lemmas.RoundtripY
 namespace GoPipeline.Roundtrip
 open GoPipeline GoPipeline.Pipe GoPipeline.Parse GoPipeline.Marshal
 
@@ -81,6 +81,38 @@ theorem C09_json_fixpoint (v : Val) (p : Pipeline) (ws : List Warn) (hv : NoUMap
 
 /-- Normalisation is idempotent: a second round of marshal + re-parse changes nothing more. -/
 theorem C09_norm_idempotent (p : Pipeline) : normPipeline (normPipeline p) = normPipeline p := norm_idempotent p
+
+/-! ### The YAML leg (value-tree level; Model/MarshalY.lean mirrors yaml.v3's struct encoding)
+
+  `rereadJ` also stands for the YAML text codec here: struct levels (Go maps / structs) come back as ordered
+  mappings, ordered mappings stay as they are. The YAML leg needs no `emptyishSkip` condition (F11 is a
+  JSON-only loss). -/
+
+/-- Every pipeline in the image of the parser can be written as YAML (no inline key collides with a
+    declared field), re-parsing that gives the same typed pipeline modulo nil/empty and plugin-source
+    canonicalisation, with the same warnings dropped to none for steps that parsed cleanly. -/
+theorem C09_yaml_fixpoint (v : Val) (p : Pipeline) (ws : List Warn) (hv : NoUMap v) (hd : KeysNodup v)
+    (h : parsePipeline v = .ok (p, ws)) (hs : StablePipelineY p) :
+    ∃ j p' ws', MarshalY.yPipeline p = .ok j ∧ parsePipeline (rereadJ j) = .ok (p', ws') ∧
+      normPipeline p' = normPipeline p :=
+  yaml_fixpoint v p ws hv hd h hs
+
+/-- Both output formats carry the same data: re-parsing the JSON form and re-parsing the YAML form of the
+    same parsed pipeline give pipelines with the same normal form. -/
+theorem C09_legs_carry_same_data (v : Val) (p : Pipeline) (ws : List Warn) (hv : NoUMap v) (hd : KeysNodup v)
+    (h : parsePipeline v = .ok (p, ws)) (hs : StablePipeline p) :
+    ∃ jJ jY pJ pY wJ wY, mPipeline p = .ok jJ ∧ MarshalY.yPipeline p = .ok jY ∧
+      parsePipeline (rereadJ jJ) = .ok (pJ, wJ) ∧ parsePipeline (rereadJ jY) = .ok (pY, wY) ∧
+      normPipeline pJ = normPipeline pY :=
+  legs_carry_same_data v p ws hv hd h hs
+
+/-- The one place where the legs differ in content: an adjustment's `skip` that is `false`, `""`, `0` or
+    `[]` is kept by the YAML form and dropped by the JSON form (finding F11). -/
+theorem C09_yaml_keeps_emptyish_skip (a : Adjustment) (h : emptyishSkip a.skip = true)
+    (hrem : (a.rem.getD []).lookup "skip" = none ∧ (a.rem.getD []).lookup "with" = none) :
+    (∃ kvs, MarshalY.yAdjustment a = .ok (.umap kvs) ∧ kvs.lookup "skip" = some a.skip) ∧
+    (∃ kvs, mAdjustment a = .umap kvs ∧ kvs.lookup "skip" = none) :=
+  yaml_keeps_emptyish_skip a h hrem
 
 /-! Non-vacuity -/
 example : StableCommand { key := "k", label := "", command := "c", plugins := some [some { source := "docker#v1", config := .umap [] }],
